@@ -230,7 +230,10 @@ Lemma split_with_len body bs rest :
 Proof.
   unfold with_len, split_collection. destruct (encode_varint (N.of_nat (length body))) as [h|] eqn:E; [|discriminate].
   cbn [obind]. intro H. inversion H; subst. rewrite <- app_assoc.
-  rewrite (varint_roundtrip _ _ _ E). cbn [dbind]. rewrite Nnat.Nat2N.id, take_n_app. reflexivity.
+  rewrite (varint_roundtrip _ _ _ E). cbn [dbind].
+  destruct (N.ltb_spec (N.of_nat (length (body ++ rest))) (N.of_nat (length body))) as [L|_];
+    [rewrite app_length in L; lia|].
+  rewrite Nnat.Nat2N.id, take_n_app. reflexivity.
 Qed.
 
 Lemma split_canon bs data rest :
@@ -239,6 +242,7 @@ Lemma split_canon bs data rest :
 Proof.
   intros Hok. unfold split_collection.
   destruct (decode_varint bs) as [[len r]|] eqn:E; [|discriminate]. cbn [dbind].
+  destruct (N.of_nat (length r) <? len); [discriminate|].
   destruct (take_n (N.to_nat len) r) as [[d rest']|] eqn:T; [|discriminate].
   intro H. inversion H; subst. apply take_n_spec in T. destruct T as [-> L].
   destruct (varint_canon _ _ _ Hok E) as (h & Hh & ->).
@@ -251,6 +255,7 @@ Lemma split_in_bounds bs data rest :
   split_collection bs = DOk (data, rest) -> (length data + length rest < length bs)%nat.
 Proof.
   unfold split_collection. destruct (decode_varint bs) as [[len r]|] eqn:E; [|discriminate]. cbn [dbind].
+  destruct (N.of_nat (length r) <? len); [discriminate|].
   destruct (take_n (N.to_nat len) r) as [[d rest']|] eqn:T; [|discriminate].
   intro H. inversion H; subst. apply take_n_spec in T. destruct T as [-> L].
   unfold decode_varint in E. destruct bs as [|f r0]; [discriminate|].
